@@ -14,7 +14,7 @@ def impl_main():
     import contextlib
     import io
     from pyscsi.pyscsi.scsi_sense import SCSICheckCondition
-    out = []
+    out, held = [], []
     for s in json.load(sys.stdin):
         r = {}
         try:
@@ -33,9 +33,16 @@ def impl_main():
                 r["print"] = ["ok"]
             except Exception as e:  # noqa
                 r["print"] = ["exn", type(e).__name__]
+            held.append((cc, r))
         except Exception as e:  # noqa
             r["new"] = ["exn", type(e).__name__]
         out.append(r)
+    # the errors are still alive: converting an earlier one to text AFTER later ones were constructed must give the same answer
+    for cc, r in held:
+        try:
+            r["late"] = ["ok", str(cc), [[k, v] for k, v in cc.data.items()], getattr(cc, "asc", None), getattr(cc, "ascq", None)]
+        except Exception as e:  # noqa
+            r["late"] = ["exn", type(e).__name__]
     print(json.dumps(out))
 
 
@@ -91,6 +98,12 @@ def oracle(s, r):
         return "str() of the CheckCondition raised %s" % r["str"][1]
     if r["print"][0] != "ok":
         return "printing the CheckCondition raised %s" % r["print"][1]
+    late = r.get("late")
+    if late is not None:
+        if late[0] != "ok":
+            return "str() of the CheckCondition raised %s once other sense buffers had been decoded" % late[1]
+        if late[1] != r["str"][1] or late[2] != r["new"][2] or late[3:] != r["new"][3:]:
+            return "the error changed after later sense buffers were decoded: text %r -> %r" % (r["str"][1], late[1])
     rc = s[0] & 0x7F
     pos = {0x70: (2, 12, 13), 0x71: (2, 12, 13), 0x72: (1, 2, 3), 0x73: (1, 2, 3)}.get(rc)
     if pos:
